@@ -226,23 +226,26 @@ fn run_child(file: &Path, work: &Path, apis: &str) -> ChildObs {
 // ------------------------------------------------------------------------------------------------
 // classification of what went wrong (class tags)
 // ------------------------------------------------------------------------------------------------
-pub const K_TI: &str = "time-index-count-capacity";
-pub const K_SKETCH: &str = "sketch-count-mul-overflow";
-pub const K_CURSOR: &str = "search-cursor-add-overflow";
-pub const K_DATE: &str = "tantivy-unbounded-date-range";
-pub const K_TOPK: &str = "search-topk-mul-overflow";
+// The classes below named "regressed-..." were known findings F-C22-1..5, -8..11; they are repaired in
+// /repo (b6c8721, bc37f0b, 9b4da04, d3e296c, 03a10a9, 51f7ee1, 5ec1fc0 + e2af843) and no longer listed in
+// KNOWN_FINDINGS.json: the inputs are still generated (regression cases) and a reappearance is a plain VIOLATION.
+pub const K_TI: &str = "regressed-time-index-count-capacity";
+pub const K_SKETCH: &str = "regressed-sketch-count-mul-overflow";
+pub const K_CURSOR: &str = "regressed-search-cursor-add-overflow";
+pub const K_DATE: &str = "regressed-tantivy-unbounded-date-range";
+pub const K_TOPK: &str = "regressed-search-topk-mul-overflow";
 /// Tantivy's own decoders panic on segment bytes that are not what Tantivy wrote; the manifest
 /// checksum of the segment no longer matches (a check at load time would turn this into an error)
 /// Vec::with_capacity(2 * doc_limit) inside Tantivy's TopDocs collector for an absurd top_k
-pub const K_TOPK_COLLECTOR: &str = "search-topk-collector-capacity";
+pub const K_TOPK_COLLECTOR: &str = "regressed-search-topk-collector-capacity";
 /// open / doctor_plan (log sentinel) and doctor (zeroing of the whole region) write at the header's
 /// wal_offset .. + wal_size without comparing them with the file length
-pub const K_DOCTOR_WAL: &str = "log-region-outside-file-written";
+pub const K_DOCTOR_WAL: &str = "regressed-log-region-outside-file-written";
 /// a Tantivy segment whose TOC extent ends beyond the file: open (also read-only) "aligns" the footer
 /// with the catalog, i.e. rewrites TOC + footer at that end, then copies the extent to a scratch file
-pub const K_SEG: &str = "segment-extent-beyond-file-realigned";
+pub const K_SEG: &str = "regressed-segment-extent-beyond-file-realigned";
 /// `max_ts - timestamp` (i64) in the recency boost of search
-pub const K_RECENCY: &str = "search-recency-timestamp-sub-overflow";
+pub const K_RECENCY: &str = "regressed-search-recency-timestamp-sub-overflow";
 pub const K_TANTIVY: &str = "tantivy-damaged-segment";
 /// the same with the manifest checksum re-stamped by the attacker (only containment helps)
 pub const K_TANTIVY_RESIGNED: &str = "tantivy-damaged-segment-resigned";
@@ -568,6 +571,27 @@ fn witnesses(bases: &[Base]) -> Vec<Mutant> {
             v.push(Mutant { base: bi, class: "witness".into(), kind: "timestamp-span".into(), desc: "frames[1].timestamp := i64::MIN, TOC re-signed".into(), bytes });
         }
     }
+    // Tantivy's term dictionary (the .term segment file) with an 8-byte edge value at fixed places, once with
+    // the original manifest checksum (F-C22-6) and once with checksum / TOC / footer / header re-stamped (F-C22-7)
+    for (bi, b) in bases.iter().enumerate().take(1) {
+        if let Some(sg) = b.toc.indexes.lex_segments.iter().filter(|s| s.path.ends_with(".term") && s.bytes_length >= 128).max_by_key(|s| s.bytes_length) {
+            let (off, len) = (sg.bytes_offset as usize, sg.bytes_length as usize);
+            for (k, rel) in [8usize, 19, 88, len / 2, len - 8, len - 16, len - 24, len - 40].into_iter().enumerate() {
+                let val: u64 = if k % 2 == 0 { (1 << 63) - 1 } else { u32::MAX as u64 };
+                let mut bytes = b.bytes.clone();
+                if off + rel + 8 > bytes.len() { continue; }
+                bytes[off + rel..off + rel + 8].copy_from_slice(&val.to_le_bytes());
+                v.push(Mutant { base: bi, class: "tantivy".into(), kind: "term-dict".into(), desc: format!("tantivy / lex segment {}: u64 {} written at +{} of {} (original manifest checksum)", sg.path, val, rel, len), bytes: bytes.clone() });
+                let mut t = b.toc.clone();
+                let sum = *blake3::hash(&bytes[off..off + len]).as_bytes();
+                for x in t.indexes.lex_segments.iter_mut() { if x.bytes_offset as usize == off { x.checksum = sum; } }
+                for x in t.segment_catalog.tantivy_segments.iter_mut() { if x.common.bytes_offset as usize == off { x.common.checksum = sum; } }
+                if let Some(bytes) = resign(&bytes, &b.header, &t, b.toc_off, base_generation(b) + 1) {
+                    v.push(Mutant { base: bi, class: "resigned-lex_segment".into(), kind: "term-dict".into(), desc: format!("lex_segment {}: u64 {} written at +{} of {}, manifest checksum re-stamped, TOC re-signed", sg.path, val, rel, len), bytes });
+                }
+            }
+        }
+    }
     // sketch track: entry_count = 2^60 with entry size 32 -> count * size = 2^65
     for (bi, b) in bases.iter().enumerate() {
         if let Some(m) = &b.toc.sketch_track {
@@ -791,7 +815,7 @@ fn verdict(m: Option<&Mutant>, base: Option<&Base>, obs: &ChildObs) -> (Option<S
     // the smallest class first so that the report is stable
     viols.sort();
     // known classes last: an unknown class must not hide behind a known one
-    let known = [K_TI, K_SKETCH, K_CURSOR, K_DATE, K_TOPK, K_TANTIVY, K_TANTIVY_RESIGNED, K_DOCTOR_WAL, K_TOPK_COLLECTOR, K_SEG, K_RECENCY];
+    let known = [K_TANTIVY, K_TANTIVY_RESIGNED];
     viols.sort_by_key(|v| known.iter().any(|k| v.starts_with(&format!("{}:", k))));
     (viols.first().cloned(), tags)
 }
@@ -942,11 +966,15 @@ fn run_walscan(r: &mut Rng, n: usize, w: &mut dyn std::io::Write) {
             _ => {}
         }
         let file_len = pad + tail.len() as u64;
-        let wal_offset: u64 = match r.below(12) { 0 => pad + r.below(60), 1 => file_len, 2 => file_len + r.below(100), 3 => u64::MAX, 4 => u64::MAX - r.below(100), 5 => (1 << 63) - 1 - r.below(50), 6 => 1 << 63, 7 => pad.saturating_sub(r.below(40)).max(4096), _ => pad };
+        let wal_offset: u64 = match r.below(16) { 0 => pad + r.below(60), 1 => file_len, 2 => file_len + r.below(100), 3 => u64::MAX, 4 => u64::MAX - r.below(100), 5 => (1 << 63) - 1 - r.below(50), 6 => 1 << 63, 7 => pad.saturating_sub(r.below(40)).max(4096), _ => pad };
         let avail = file_len.saturating_sub(wal_offset);
-        let wal_size: u64 = match r.below(14) {
-            0 => 0, 1 => r.range(1, 47), 2 => 48, 3 => good_len, 4 => good_len + r.below(48), 5 => good_len + 48, 6 => avail, 7 => avail + r.range(1, 100), 8 => avail.saturating_sub(r.range(1, 60)).max(1),
-            9 => u64::MAX, 10 => u64::MAX - r.below(48), 11 => 1 << 63, 12 => u64::MAX - 47 - r.below(3), _ => avail.max(1),
+        // since 03a10a9 a region that does not fit the file is refused before the scan: most sizes stay
+        // inside the file (the scan is what the model is about), the boundary end == file length and
+        // end == file length + 1 and the absurd values are kept
+        let wal_size: u64 = match r.below(20) {
+            0 => 0, 1 => r.range(1, 47), 2 => 48, 3 | 4 => good_len, 5 | 6 => (good_len + r.below(48)).min(avail.max(1)), 7 | 8 => (good_len + 48).min(avail.max(1)),
+            9 | 10 | 11 => avail, 12 => avail + 1, 13 => avail + r.range(1, 100), 14 | 15 => avail.saturating_sub(r.range(1, 60)).max(1),
+            16 => u64::MAX, 17 => u64::MAX - r.below(48), 18 => 1 << 63, _ => avail.max(1),
         };
         let ckpt_pos = match r.below(4) { 0 => 0, 1 => r.next(), _ => r.below(wal_size.max(1).saturating_add(3)) };
         let ckpt_seq = match r.below(5) { 0 => 0, 1 => seq, 2 => seq + 1, 3 => u64::MAX, _ => r.below(seq + 2) };
@@ -978,7 +1006,7 @@ fn run_walscan(r: &mut Rng, n: usize, w: &mut dyn std::io::Write) {
             Ok(Ok(wal)) => { let s = wal.stats(); tags.push("ok".into()); T::C("Ok", vec![T::Tup(vec![T::N(s.pending_bytes as u128), T::N(s.sequence as u128)])]) }
             Ok(Err(e)) => {
                 let s = e.to_string();
-                let k = if s.contains("wal_size must be non-zero") { 7 } else if s.contains("length invalid") { 4 } else if s.contains("checksum mismatch") { 5 } else { 9 };
+                let k = if s.contains("wal_size must be non-zero") { 7 } else if s.contains("wal region extends past end of file") { 8 } else if s.contains("length invalid") { 4 } else if s.contains("checksum mismatch") { 5 } else { 9 };
                 tags.push(format!("err{}", k)); T::C("Err", vec![T::N(k)])
             }
             Err(_) => { viol = Some("wal-open-panic: EmbeddedWal::open_read_only panicked".to_string()); tags.push("panic".into()); T::C("Panic", vec![T::N(0)]) }
